@@ -455,6 +455,7 @@ func c01Case(res *vResult, agents []*c01Agent, idx int, forced *c01Plan) {
 	corpus := c01Corpus(p, seid, idx%50000)
 	plan := c01Plan{Agent: ag.name, State: state}
 	flood := 0
+	vanish := false
 	var mutant []byte
 	dkey := ""
 	if forced != nil {
@@ -489,6 +490,13 @@ func c01Case(res *vResult, agents []*c01Agent, idx int, forced *c01Plan) {
 			mutant = p.heartbeat(0x600000)
 			plan.Seed, plan.Ops = "hbreq", []string{fmt.Sprintf("burst x%d", flood)}
 			dkey = fmt.Sprintf("hbreq|burst|%s|%s", ag.name, state)
+		case kind == 4 && rng.Intn(3) == 0 && state != "fresh" && state != "pending":
+			// the peer vanishes with requests in flight (its port is closed when the answers arrive: ICMP port unreachable,
+			// the agent's socket reports an error) and comes back on the same port: it is served like before
+			vanish = true
+			mutant = p.heartbeat(0x610000)
+			plan.Seed, plan.Ops = "hbreq", []string{"peer vanishes and returns on the same port"}
+			dkey = fmt.Sprintf("vanish|%s|%s", ag.name, state)
 		case kind == 2: // the valid message itself, in this state
 			s := corpus[rng.Intn(len(corpus))]
 			mutant = s.raw
@@ -539,7 +547,24 @@ func c01Case(res *vResult, agents []*c01Agent, idx int, forced *c01Plan) {
 	res.begin(idx, fmt.Sprintf("c01 %s %s %s %v", ag.name, state, plan.Seed, plan.Ops), plan)
 
 	var ex vExchange
-	if flood > 0 {
+	if vanish {
+		for k := 0; k < 3; k++ {
+			p.send(p.heartbeat(uint32(0x610000 + k)))
+		}
+		local := p.local
+		p.conn.Close()
+		time.Sleep(time.Duration(5+rng.Intn(30)) * time.Millisecond)
+		np, err := vNewPeerAt(local, ag.n4)
+		if err != nil {
+			res.note("vanish case: the port could not be bound again: " + err.Error())
+			return
+		}
+		np.barrierWait, np.barrierTries = p.barrierWait, p.barrierTries
+		*p = *np // the deferred close and everything below use the new socket
+		res.event("peers_vanished_and_returned", 1)
+		ex = p.barrier(&vExchange{})
+		ex.Replies = nil
+	} else if flood > 0 {
 		for k := 0; k < flood; k++ {
 			p.send(p.heartbeat(uint32(0x600000 + k)))
 			if k%16 == 15 {
